@@ -13,7 +13,7 @@ import time
 from . import core
 
 PROPERTY_MACHINES = {
-    "C03": ["c03"],
+    "C03": ["c03", "c03v"],
     "C04": ["c04"],
     "C16": ["c16"],
     "C17": ["c17"],
